@@ -3,7 +3,7 @@
 From Coq Require Import Permutation.
 From SC Require Import Lib.Prelude Lib.Int Lib.Host Model.Nft Run.NftCommon Proofs.NftMaps Proofs.NftFrame
   Proofs.NftInv Proofs.NftCons Proofs.NftOwn Proofs.NftSim Proofs.NftCard Proofs.NftEnum Run.C10 Proofs.C10Card
-  Proofs.C10Sim.
+  Proofs.C10Sim Proofs.C10Live.
 Local Open Scope N_scope.
 
 (* ---------- well-formedness of the queries (a boolean the harness inputs satisfy) ---------- *)
@@ -195,8 +195,29 @@ Proof.
       * rewrite forallb_forall in Hw3. specialize (Hw3 p Hp). apply N.eqb_eq in Hw3. exact Hw3.
 Qed.
 
+Lemma c10_live_ok fl c g cl r : c10_live fl c g cl (Ok r) = true.
+Proof. destruct cl; cbn [c10_live is_ok]; try reflexivity; try (destruct fl; try reflexivity); match goal with |- (if ?b then _ else _) = _ => destruct b end; reflexivity. Qed.
+
+Lemma c10_live_fail fl c s g cl : Sim10 fl s g -> exec fl c s cl = Fail -> c10_live fl c g cl Fail = true.
+Proof.
+  intros Hs He. destruct cl; cbn [c10_live is_ok]; try reflexivity.
+  - destruct fl; try reflexivity.
+    destruct ((1 <=? amount) && (amount <=? max_batch c) && (g_next g + amount <=? MAXU32N) && (cnt (g_cnt g) to + amount <=? MAXU32N)) eqn:E; [|reflexivity].
+    repeat (apply andb_true_iff in E; destruct E as [E ?]). apply N.leb_le in E, H, H0, H1.
+    pose proof Hs as ((((_&Hx)&Hb&_)&_)&_). rewrite <- Hx in H0. rewrite <- Hb in H.
+    destruct (batch_mint_progress c s to amount E H1 H0 H) as [s' X]. rewrite X in He. discriminate.
+  - destruct (has_auth auths from && oaddr_eqb (rget (g_own g) id) (Some from) && (cnt (g_cnt g) to + 1 <=? MAXU32N)) eqn:E; [|reflexivity].
+    apply andb_true_iff in E. destruct E as [E E3]. apply andb_true_iff in E. destruct E as [E1 E2].
+    apply oaddr_eqb_eq in E2. apply N.leb_le in E3.
+    pose proof Hs as (((_&Hb&_)&_)&_). rewrite <- Hb in E3.
+    destruct (owner_transfer_progress fl c s g auths from to id Hs E1 E2 E3) as [s' X]. rewrite X in He. discriminate.
+  - destruct (has_auth auths from && oaddr_eqb (rget (g_own g) id) (Some from)) eqn:E; [|reflexivity].
+    apply andb_true_iff in E. destruct E as [E1 E2]. apply oaddr_eqb_eq in E2.
+    destruct (owner_burn_progress fl c s g auths from id Hs E1 E2) as [s' X]. rewrite X in He. discriminate.
+Qed.
+
 Lemma mon_model_steps fl c full l : forall s g i,
-  Sim10 fl s g -> wf_run fl c full s l = true -> mon_from fl full g (model_steps fl c s l) i = 0.
+  Sim10 fl s g -> wf_run fl c full s l = true -> mon_from fl c full g (model_steps fl c s l) i = 0.
 Proof.
   induction l as [|[cl sh] r IH]; intros s g i Hs Hwf; cbn [model_steps mon_from]; [reflexivity|].
   cbn [wf_run] in Hwf. apply andb_true_iff in Hwf. destruct Hwf as [Hwf Hwr].
@@ -204,15 +225,16 @@ Proof.
   destruct (step_cases fl c s cl) as [(s'&rr&He&Est)|[He Est]]; rewrite Est in *; cbn [fst snd] in *;
     cbn [mon_from c10_step_ok fst snd].
   - pose proof (sim10_step fl c s g cl s' rr Hs Hfr He) as Hs'.
-    rewrite (c10_legal_model fl c s g cl s' rr (proj1 Hs) Hfr He).
+    rewrite (c10_legal_model fl c s g cl s' rr (proj1 Hs) Hfr He), c10_live_ok.
     rewrite (c10_obs_model fl c full s' _ sh Hs' Hsh). cbn [andb]. apply IH; assumption.
-  - cbn [c10_legal ghost_step]. rewrite (c10_obs_model fl c full s g sh Hs Hsh). cbn [andb]. apply IH; assumption.
+  - cbn [c10_legal ghost_step]. rewrite (c10_live_fail fl c s g cl Hs He).
+    rewrite (c10_obs_model fl c full s g sh Hs Hsh). cbn [andb]. apply IH; assumption.
 Qed.
 
 Theorem c10_check_accepts_model fl c now0 full l :
   wf_run fl c full (init now0) l = true ->
   check (model_trace fl c now0 full l) = (0, 0, 0).
 Proof.
-  intros Hwf. unfold check. rewrite diff_model_trace. unfold monitor, model_trace. cbn [t_fl t_full t_now0 t_steps].
+  intros Hwf. unfold check. rewrite diff_model_trace. unfold monitor, model_trace. cbn [t_fl t_cfg t_full t_now0 t_steps].
   rewrite (mon_model_steps fl c full l _ _ 0 (sim10_init fl now0) Hwf). reflexivity.
 Qed.
